@@ -408,6 +408,9 @@ def region3_density(W, t, p):
     return None
 
 
+VISC_SEEN = []
+
+
 def check_visc(ctx, W, d, t, where):
     case = {'clause': 'viscosity positive', 'd': d, 't': t}
     with ctx.guard(case) as g:
@@ -418,6 +421,19 @@ def check_visc(ctx, W, d, t, where):
     ctx.count('viscosity')
     if not (mu > 0 and mu < 1e-1 and mu == mu):
         ctx.violation('viscosity-not-positive:%s' % where, 'visc(%r, %r) = %r' % (d, t, mu), case)
+    # the value is the viscosity OF that state: asked again later (the very first call of the process included), the
+    # answer is the same
+    VISC_SEEN.append((d, t, mu))
+    k = len(VISC_SEEN)
+    if k in (2, 50) or k % 400 == 0:
+        for d0, t0, mu0 in (VISC_SEEN[0], VISC_SEEN[k // 2]):
+            with ctx.guard(case) as g:
+                again = W.visc(d0, t0)
+            if g.raised is None:
+                ctx.count('viscosity_asked_again')
+                if not (again == mu0):
+                    ctx.violation('viscosity-not-a-function-of-state', 'visc(%r, %r) gave %r, asked again after %d other calls it gives %r' % (d0, t0, mu0, k, again),
+                                  {'clause': 'viscosity positive', 'd': d0, 't': t0})
 
 
 # -- boundaries -------------------------------------------------------------------------------
